@@ -50,6 +50,7 @@ func runC14(c *Ctx) {
 	r.Clauses = []string{
 		"C14.1 every identity component spliced into a SPIFFE principal regex is a constant or has passed regexp.QuoteMeta",
 		"C14.2 intentions are sorted by precedence and de-duplicated by source before they are converted, and precedence is removed only afterwards",
+		"C14.5 the source containment test answers true only below the edges on which the two sources' peers are equal and their partitions are equal (wildcards never cross a peer or partition boundary)",
 		"C14.4 in the pairwise source walk a source is subtracted only from lower-precedence entries, and both containment directions of a pair are handled (more specific: AND NOT; broader: the shadowed entry is dropped)",
 		"C14.3 precedence removal never shortens the list it is given and marks an element for removal only when its action equals the default action or below a source-containment test (shadowed by a higher-precedence entry)",
 	}
@@ -278,6 +279,7 @@ func runC14(c *Ctx) {
 	r.Floor("C14.3", 2)
 	_ = n
 	checkSourcePrecedencePairs(c)
+	checkSourceMatchRequiresPeerAndPartition(c)
 }
 
 // C14.4: the pairwise walk that turns precedence into AND-NOT terms.
@@ -431,5 +433,110 @@ func checkSourcePrecedencePairs(c *Ctx) {
 		r.Violate("C14.4", name+"/both-directions", p.FuncPos(f), "only the case 'the higher-precedence source is more specific' is handled; when the higher-precedence intention has the BROADER source ('* -> api' over 'web -> *') the lower one is left in place and still decides for its callers: under default deny with '* -> api deny' and 'web -> * allow' the proxy admits web although the intention decision is deny")
 	default:
 		r.Unresolve("C14.4", name+"/both-directions", "source containment test between the pair not found")
+	}
+}
+
+// C14.5
+func checkSourceMatchRequiresPeerAndPartition(c *Ctx) {
+	p, r := c.P, c.R
+	f := p.Func(xdsPkg, "ixnSourceMatches")
+	if f == nil {
+		r.Unresolve("C14.5", "xds.ixnSourceMatches", "not found")
+		return
+	}
+	// equality tests between the two parameters on a given selector
+	eqEdgesOn := func(sel string) []core.Edge {
+		var out []core.Edge
+		for _, b := range f.Blocks {
+			for _, in := range b.Instrs {
+				cmp, ok := in.(*ssa.BinOp)
+				if !ok || (cmp.Op != token.EQL && cmp.Op != token.NEQ) {
+					continue
+				}
+				side := func(v ssa.Value) (int, bool) {
+					hit, which := false, -1
+					core.Leaves(v, core.SliceOpts{ThroughCalls: true, StopAt: func(x ssa.Value) bool {
+						if call, ok := x.(*ssa.Call); ok && strings.Contains(core.MethodNameOf(&call.Call), sel) {
+							hit = true
+						}
+						if core.AccessOf(x).LastField() == sel {
+							hit = true
+						}
+						for i, prm := range f.Params {
+							if x == ssa.Value(prm) {
+								which = i
+							}
+						}
+						return false
+					}})
+					return which, hit
+				}
+				wx, hx := side(cmp.X)
+				wy, hy := side(cmp.Y)
+				if !hx || !hy || wx < 0 || wy < 0 || wx == wy {
+					continue
+				}
+				te, fe := core.CondEdges(cmp)
+				if cmp.Op == token.EQL {
+					out = append(out, te...)
+				} else {
+					out = append(out, fe...)
+				}
+			}
+		}
+		return out
+	}
+	canReturnTrueWithout := func(edges []core.Edge) bool {
+		cut := map[core.Edge]bool{}
+		for _, e := range edges {
+			cut[e] = true
+		}
+		w := &core.Walk{Cut: func(b *ssa.BasicBlock, si int) bool { return cut[core.Edge{From: b, Succ: si}] }}
+		w.FromEntry(f)
+		for _, rt := range core.Returns(f) {
+			v := core.ResolveResult(rt, 0)
+			switch x := v.(type) {
+			case *ssa.Const:
+				if b, ok := core.ConstBool(x); ok && b && (w.Reached(rt.Block()) || rt.Block() == f.Blocks[0]) {
+					return true
+				}
+			case *ssa.Phi:
+				for i, e := range x.Edges {
+					if b, ok := core.ConstBool(e); ok && !b {
+						continue
+					}
+					pred := x.Block().Preds[i]
+					if w.Reached(pred) || pred == f.Blocks[0] {
+						// is this incoming edge itself cut?
+						edgeCut := false
+						for si, s := range pred.Succs {
+							if s == x.Block() && cut[core.Edge{From: pred, Succ: si}] {
+								edgeCut = true
+							}
+						}
+						if !edgeCut {
+							return true
+						}
+					}
+				}
+			default:
+				if w.Reached(rt.Block()) || rt.Block() == f.Blocks[0] {
+					return true
+				}
+			}
+		}
+		return false
+	}
+	for _, sel := range []struct{ field, what string }{{"Peer", "peer"}, {"Partition", "partition"}} {
+		edges := eqEdgesOn(sel.field)
+		construct := "xds.ixnSourceMatches/" + sel.what
+		switch {
+		case len(edges) == 0:
+			r.Violate("C14.5", construct, p.FuncPos(f), "the "+sel.what+"s of the two sources are not compared: a wildcard source would cover sources of every "+sel.what)
+		case canReturnTrueWithout(edges):
+			r.Violate("C14.5", construct, p.FuncPos(f), "the containment test can answer true on a path on which the two sources' "+sel.what+"s were not found equal: a local wildcard source is then taken to cover a source imported from a peer (or another partition), so the precedence walk drops or narrows the other intention and the caller falls to the default decision")
+		default:
+			r.Hold("C14.5", construct, p.FuncPos(f), "true only below the "+sel.what+"-equal edge")
+		}
 	}
 }
